@@ -50,8 +50,9 @@ Qed.
 Lemma cpf_head x t : forall p0',
   (forall kv, In kv t -> exists k', fst kv = x :: k') -> exists q, cpf t (x :: p0') = x :: q.
 Proof.
-  induction t as [|y t IH]; intros p0' Hall; cbn [cpf fold_left]; eauto.
-  destruct (Hall y (or_introl eq_refl)) as (k' & E). rewrite E. cbn [common_prefix]. rewrite Nat.eqb_refl.
+  induction t as [|[ky vy] t IH]; intros p0' Hall; cbn [cpf fold_left]; eauto.
+  destruct (Hall (ky, vy) (or_introl eq_refl)) as (k' & E). cbn [fst] in *. subst ky.
+  cbn [common_prefix]. rewrite Nat.eqb_refl.
   apply IH. intros kv Hin. apply Hall. right; auto.
 Qed.
 
@@ -113,7 +114,7 @@ Lemma wfk_common p : forall r1 r2, wfk (p ++ r1) -> wfk (p ++ r2) -> r1 <> r2 ->
 Proof.
   induction p as [|x p IH]; intros r1 r2 H1 H2 Hne; cbn [app] in *; [repeat split; auto; constructor|].
   cbn [wfk] in H1, H2. destruct H1 as [[-> E1]|[Hx1 W1]], H2 as [[E0 E2]|[Hx2 W2]]; try lia.
-  - apply app_eq_nil in E1 as [_ ->]. apply app_eq_nil in E2 as [_ ->]. congruence.
+  - apply app_eq_nil in E1 as [Ep1 Er1]. apply app_eq_nil in E2 as [Ep2 Er2]. congruence.
   - destruct (IH r1 r2 W1 W2 Hne) as (A & B & C). repeat split; auto. constructor; auto.
 Qed.
 
@@ -136,7 +137,8 @@ Proof.
   destruct (Hpre k1 v1 (or_introl eq_refl)) as (r1 & E1).
   destruct (Hpre k2 v2 (or_intror (or_introl eq_refl))) as (r2 & E2).
   assert (Hne : r1 <> r2).
-  { intros ->. cbn [map fst] in Hn. inversion Hn as [|? ? Hnot _]; subst. apply Hnot. left. congruence. }
+  { intros ->. unfold m in Hn. cbn [map fst] in Hn. apply NoDup_cons_iff in Hn as [Hnot _].
+    apply Hnot. left. congruence. }
   assert (W1 : wfk (p ++ r1)) by (rewrite <- E1; apply (Hw k1 v1); left; auto).
   assert (W2 : wfk (p ++ r2)) by (rewrite <- E2; apply (Hw k2 v2); right; left; auto).
   destruct (wfk_common p r1 r2 W1 W2 Hne) as (Hp & _). split; auto.
@@ -150,14 +152,15 @@ Lemma cpa_nil_two e1 t :
   exists x k1 y kv2, fst e1 = x :: k1 /\ In kv2 t /\ (exists k2, fst kv2 = y :: k2) /\ x <> y.
 Proof.
   destruct e1 as [k1 v1]. rewrite cpa_cons. intros Hc Hne. cbn [fst].
-  destruct k1 as [|x k1]; [exfalso; apply (Hne (@nil nat, v1)); [left; auto|reflexivity]|].
+  destruct k1 as [|x k1]; [exfalso; apply (Hne ([], v1) (or_introl eq_refl)); reflexivity|].
   (* otherwise some key starts differently *)
   assert (Hex : (forall kv, In kv t -> exists k', fst kv = x :: k') \/
                 exists kv2 y k2, In kv2 t /\ fst kv2 = y :: k2 /\ x <> y).
   { clear Hc. induction t as [|kv t IH]; [left; intros kv []|].
-    destruct IH as [IH|(kv2 & y & k2 & A & B & C)].
-    - intros kv' Hin. apply Hne. right. destruct Hin; [left|right; right]; auto.
-    - destruct (fst kv) as [|y k2] eqn:E; [exfalso; apply (Hne kv); [right; left; auto|exact E]|].
+    assert (Hne' : forall kv0, In kv0 ((x :: k1, v1) :: t) -> fst kv0 <> []).
+    { intros kv' [<-|Hin]; apply Hne; [left; auto|right; right; auto]. }
+    destruct (IH Hne') as [IHa|(kv2 & y & k2 & A & B & C)].
+    - destruct (fst kv) as [|y k2] eqn:E; [exfalso; apply (Hne kv (or_intror (or_introl eq_refl))); exact E|].
       destruct (Nat.eq_dec x y) as [->|Hd].
       + left. intros kv' [<-|Hin]; eauto.
       + right. exists kv, y, k2. repeat split; auto. left; auto.
@@ -165,4 +168,210 @@ Proof.
   destruct Hex as [Hall|(kv2 & y & k2 & A & B & C)].
   - destruct (cpf_head x t k1 Hall) as (q & E). congruence.
   - exists x, k1, y, kv2. repeat split; eauto.
+Qed.
+
+(* ------------------------------------------------------------------ build *)
+
+Lemma build_two f k1 v1 e2 t :
+  build (S f) ((k1, v1) :: e2 :: t) =
+  let m := (k1, v1) :: e2 :: t in
+  match common_prefix_all m with
+  | [] => Full (map (fun i => build f (sub i m)) (seq 0 17)) newflag
+  | p => Short p (build f (strip (length p) m)) newflag
+  end.
+Proof. reflexivity. Qed.
+
+Lemma nodup_map_inj {A B} (f : A -> B) l :
+  NoDup l -> (forall a b, In a l -> In b l -> f a = f b -> a = b) -> NoDup (map f l).
+Proof.
+  induction 1 as [|a l Hnot Hn IH]; intros Hinj; cbn; constructor.
+  - intros Hin. apply in_map_iff in Hin as (b & E & Hb). apply Hnot.
+    rewrite (Hinj a b); auto; [left; auto|right; auto].
+  - apply IH. intros x y Hx Hy. apply Hinj; right; auto.
+Qed.
+
+Lemma strip_restore p m : (forall kv, In kv m -> exists r, fst kv = p ++ r) ->
+  map (fun kv => (p ++ fst kv, snd kv)) (strip (length p) m) = m.
+Proof.
+  induction m as [|[k v] m IH]; intros Hall; cbn [strip map fst snd]; auto.
+  destruct (Hall (k, v) (or_introl eq_refl)) as (r & E). cbn in E. subst k.
+  rewrite skipn_app_len. f_equal. apply IH. intros kv Hin. apply Hall. right; auto.
+Qed.
+
+Lemma nodup_strip p m : NoDup (map fst m) -> (forall kv, In kv m -> exists r, fst kv = p ++ r) ->
+  NoDup (map fst (strip (length p) m)).
+Proof.
+  induction m as [|[k v] m IH]; intros Hn Hall; cbn [strip map fst]; [constructor|].
+  cbn [map fst] in Hn. inversion Hn as [|? ? Hnot Hn']; subst.
+  constructor.
+  - intros Hin. apply in_map_iff in Hin as ([r w] & E & Hin). cbn [fst] in E.
+    apply in_strip in Hin as (k2 & Hin2 & ->).
+    destruct (Hall (k, v) (or_introl eq_refl)) as (ra & Ea). cbn in Ea.
+    destruct (Hall (k2, w) (or_intror Hin2)) as (rb & Eb). cbn in Eb. subst k k2.
+    rewrite !skipn_app_len in E. subst rb. apply Hnot. apply in_map_iff. exists (p ++ ra, w). auto.
+  - apply IH; auto. intros kv Hin. apply Hall. right; auto.
+Qed.
+
+Lemma sub16_shape m : keys_wf m -> NoDup (map fst m) ->
+  sub 16 m = [] \/ exists v, sub 16 m = [([], v)].
+Proof.
+  intros Hw Hn. pose proof (nodup_sub 16 m Hn) as Hn16.
+  assert (Hk : forall r w, In (r, w) (sub 16 m) -> r = []).
+  { intros r w Hin. apply in_sub in Hin. specialize (Hw _ _ Hin). cbn in Hw.
+    destruct Hw as [[_ E]|[X _]]; [auto|lia]. }
+  destruct (sub 16 m) as [|[r1 w1] [|[r2 w2] t]]; auto.
+  - right. exists w1. rewrite (Hk r1 w1) by (left; auto). reflexivity.
+  - exfalso. rewrite (Hk r1 w1) in Hn16 by (left; auto). rewrite (Hk r2 w2) in Hn16 by (right; left; auto).
+    cbn in Hn16. inversion Hn16 as [|? ? Hnot _]; subst. apply Hnot. left; auto.
+Qed.
+
+Lemma build_spec : forall fuel (m : kvs),
+  NoDup (map fst m) -> vals_ne m -> keys_wf m -> (forall k v, In (k, v) m -> length k < fuel) ->
+  canon (build fuel m) /\ (m <> [] -> build fuel m <> Empty) /\
+  (2 <= length m -> common_prefix_all m = [] -> exists cs g, build fuel m = Full cs g) /\
+  (forall k w, has (build fuel m) k w <-> In (k, w) m).
+Proof.
+  induction fuel as [|f IH]; intros m Hn Hv Hw Hl.
+  - destruct m as [|[k v] m]; [|specialize (Hl k v (or_introl eq_refl)); lia].
+    cbn. split; [constructor|]. split; [congruence|]. split; [cbn; lia|].
+    intros k w. rewrite has_empty. cbn. tauto.
+  - destruct m as [|[k1 v1] [|e2 t]].
+    + cbn. split; [constructor|]. split; [congruence|]. split; [cbn; lia|].
+      intros k w. rewrite has_empty. cbn. tauto.
+    + (* one entry *)
+      assert (Hk1 : wfk k1) by (apply (Hw k1 v1); left; auto).
+      assert (Hv1 : v1 <> []) by (apply (Hv k1 v1); left; auto).
+      destruct (wfk_split _ Hk1) as (p & -> & Hp).
+      match goal with |- context [build (S f) ?x] =>
+        assert (E : build (S f) x = Short (p ++ [16]) (Value v1) newflag) end.
+      { cbn [build]. destruct (p ++ [16]) eqn:X; [destruct p; discriminate|reflexivity]. }
+      rewrite E. split; [constructor; auto|]. split; [discriminate|]. split; [cbn; lia|].
+      intros k w. rewrite has_short. split.
+      * intros (r & -> & Hr). apply has_value in Hr as [-> ->]. rewrite app_nil_r. left; auto.
+      * intros [X|[]]. inversion X; subst. exists []. rewrite app_nil_r. split; auto. constructor.
+    + (* two or more entries *)
+      rewrite build_two. cbv zeta. set (m := (k1, v1) :: e2 :: t) in *.
+      destruct (cpa_shape (k1, v1) e2 t Hn Hw) as (Hp & Hpre). fold m in Hp, Hpre.
+      destruct (common_prefix_all m) as [|p0 pt] eqn:Ecp.
+      * (* branch *)
+        set (cs := map (fun i => build f (sub i m)) (seq 0 17)).
+        assert (Hnth : forall i, i < 17 -> nth_error cs i = Some (build f (sub i m)))
+          by (intros i Hi; apply (nth_error_map_seq (fun i => build f (sub i m))); auto).
+        assert (Hkey : forall k v, In (k, v) m -> exists i r, k = i :: r /\ i <= 16 /\
+                                                              (i < 16 -> wfk r) /\ (i = 16 -> r = [])).
+        { intros k v Hin. specialize (Hw _ _ Hin). destruct k as [|i r]; [cbn in Hw; tauto|].
+          exists i, r. cbn in Hw. split; auto. destruct Hw as [[-> ->]|[Hi Hr]]; repeat split; auto; lia. }
+        assert (HIH : forall i, i < 16 ->
+                  canon (build f (sub i m)) /\ (sub i m <> [] -> build f (sub i m) <> Empty) /\
+                  (forall r w, has (build f (sub i m)) r w <-> In (r, w) (sub i m))).
+        { intros i Hi. destruct (IH (sub i m)) as (A & B & _ & D); auto.
+          - apply nodup_sub; auto.
+          - intros r w Hin. apply in_sub in Hin. eapply Hv; eauto.
+          - intros r w Hin. apply in_sub in Hin. specialize (Hw _ _ Hin). cbn in Hw.
+            destruct Hw as [[X _]|[_ Y]]; [lia|auto].
+          - intros r w Hin. apply in_sub in Hin. specialize (Hl _ _ Hin). cbn in Hl. lia. }
+        assert (H16s : (sub 16 m = [] /\ build f (sub 16 m) = Empty) \/
+                       exists v, sub 16 m = [([], v)] /\ build f (sub 16 m) = Value v /\ v <> []).
+        { destruct (sub16_shape m Hw Hn) as [E|(v & E)].
+          - left. split; auto. rewrite E. destruct f; reflexivity.
+          - right. exists v. split; auto.
+            assert (Hin : In ([16], v) m) by (apply in_sub; rewrite E; left; auto).
+            specialize (Hl _ _ Hin). cbn in Hl. destruct f as [|f]; [lia|].
+            split; [rewrite E; reflexivity|]. eapply Hv; eauto. }
+        assert (Hhas : forall i, i <= 16 -> forall r w,
+                         has (build f (sub i m)) r w <-> In (r, w) (sub i m)).
+        { intros i Hi r w. destruct (Nat.eq_dec i 16) as [->|Hd].
+          - destruct H16s as [[E1 E2]|(v & E1 & E2 & _)]; rewrite E2, E1.
+            + rewrite has_empty. cbn. tauto.
+            + rewrite has_value. cbn. split; [intros [-> ->]; auto|intros [X|[]]; inversion X; auto].
+          - apply HIH. lia. }
+        assert (Hnonempty : forall i r w, i <= 16 -> In (i :: r, w) m -> build f (sub i m) <> Empty).
+        { intros i r w Hi Hin. destruct (Nat.eq_dec i 16) as [->|Hd].
+          - destruct H16s as [[E1 _]|(v & _ & E2 & _)]; [|rewrite E2; discriminate].
+            apply in_sub in Hin. rewrite E1 in Hin. destruct Hin.
+          - apply HIH; [lia|]. apply in_sub in Hin. intros X. rewrite X in Hin. destruct Hin. }
+        split; [|split; [discriminate|split; [eauto|]]].
+        -- constructor.
+           ++ unfold cs. rewrite map_length, seq_length. reflexivity.
+           ++ intros i c Hc Hi. rewrite Hnth in Hc by lia.
+              assert (c = build f (sub i m)) as -> by congruence. apply HIH; auto.
+           ++ intros c Hc. rewrite Hnth in Hc by lia.
+              assert (c = build f (sub 16 m)) as -> by congruence.
+              destruct H16s as [[_ E]|(v & _ & E & Hne)]; rewrite E; eauto.
+           ++ destruct (cpa_nil_two (k1, v1) (e2 :: t) Ecp) as (x & kx & y & kv2 & Ex & Hin2 & (ky & Ey) & Hxy).
+              { intros kv Hin. destruct kv as [k v]. specialize (Hw _ _ Hin). destruct k; [cbn in Hw; tauto|discriminate]. }
+              cbn [fst] in Ex. subst k1. destruct kv2 as [k2 v2]. cbn [fst] in Ey. subst k2.
+              assert (Hinx : In (x :: kx, v1) m) by (left; auto).
+              assert (Hiny : In (y :: ky, v2) m) by (right; auto).
+              destruct (Hkey _ _ Hinx) as (i1 & r1 & E1 & Hi1 & _). inversion E1; subst i1 r1.
+              destruct (Hkey _ _ Hiny) as (i2 & r2 & E2 & Hi2 & _). inversion E2; subst i2 r2.
+              apply (count_ne_ge_two cs x y (build f (sub x m)) (build f (sub y m))); auto.
+              ** apply Hnth; lia.
+              ** apply Hnth; lia.
+              ** eapply Hnonempty; eauto.
+              ** eapply Hnonempty; eauto.
+        -- intros k w. rewrite has_full. split.
+           ++ intros (i & r & c & -> & Hc & Hh).
+              assert (Hi : i < 17) by (apply nth_error_some_lt in Hc; unfold cs in Hc;
+                                        rewrite map_length, seq_length in Hc; auto).
+              rewrite Hnth in Hc by auto. assert (c = build f (sub i m)) as -> by congruence.
+              apply Hhas in Hh; [|lia]. apply in_sub; auto.
+           ++ intros Hin. destruct (Hkey _ _ Hin) as (i & r & -> & Hi & _).
+              exists i, r, (build f (sub i m)). split; auto. split; [apply Hnth; lia|].
+              apply Hhas; auto. apply in_sub; auto.
+      * (* extension *)
+        set (p := p0 :: pt) in *. set (m' := strip (length p) m).
+        assert (Hin' : forall r w, In (r, w) m' <-> In (p ++ r, w) m).
+        { intros r w. unfold m'. rewrite in_strip. split.
+          - intros (k & Hin & ->). destruct (Hpre _ _ Hin) as (r' & -> & _). rewrite skipn_app_len. auto.
+          - intros Hin. exists (p ++ r). split; auto. rewrite skipn_app_len. reflexivity. }
+        assert (Hrest : map (fun kv => (p ++ fst kv, snd kv)) m' = m).
+        { apply strip_restore. intros [k v] Hin. destruct (Hpre _ _ Hin) as (r & -> & _). cbn [fst]. eauto. }
+        assert (Hn' : NoDup (map fst m')).
+        { apply nodup_strip; auto. intros [k v] Hin. destruct (Hpre _ _ Hin) as (r & -> & _). cbn [fst]. eauto. }
+        destruct (IH m') as (A & B & C & D); auto.
+        { intros r w Hin. apply Hin' in Hin. eapply Hv; eauto. }
+        { intros r w Hin. apply Hin' in Hin. destruct (Hpre _ _ Hin) as (r' & E & Hr'). apply app_inv_head in E. subst; auto. }
+        { intros r w Hin. apply Hin' in Hin. specialize (Hl _ _ Hin). rewrite app_length in Hl. unfold p in Hl. cbn in Hl. lia. }
+        assert (Hlen' : 2 <= length m') by (unfold m', strip; rewrite map_length; cbn; lia).
+        assert (Ecp' : common_prefix_all m' = []).
+        { destruct m' as [|[r1 w1] t'] eqn:Em'; [cbn in Hlen'; lia|].
+          rewrite cpa_cons. pose proof Ecp as Ecp2. rewrite <- Hrest in Ecp2.
+          cbn [map fst snd] in Ecp2. rewrite cpa_cons, cpf_app in Ecp2.
+          fold p in Ecp2. rewrite <- (app_nil_r p) in Ecp2 at 2. apply app_inv_head in Ecp2. exact Ecp2. }
+        destruct (C Hlen' Ecp') as (cs & g & Efull).
+        split; [|split; [discriminate|split; [intros _ X; discriminate|]]].
+        -- rewrite Efull. constructor; [discriminate|auto|]. rewrite <- Efull. exact A.
+        -- intros k w. rewrite has_short. split.
+           ++ intros (r & -> & Hh). apply D in Hh. apply Hin'; auto.
+           ++ intros Hin. destruct (Hpre _ _ Hin) as (r & -> & _). exists r. split; auto.
+              apply D. apply Hin'; auto.
+Qed.
+
+Lemma fold_max_ge (m : kvs) : forall a0,
+  a0 <= fold_left (fun a kv => Nat.max a (length (fst kv))) m a0 /\
+  forall kv, In kv m -> length (fst kv) <= fold_left (fun a kv => Nat.max a (length (fst kv))) m a0.
+Proof.
+  induction m as [|x m IH]; intros a0; cbn [fold_left]; [split; [lia|intros kv []]|].
+  destruct (IH (Nat.max a0 (length (fst x)))) as [A B]. split.
+  - eapply Nat.le_trans; [apply Nat.le_max_l | exact A].
+  - intros kv [<-|Hin]; [|auto]. eapply Nat.le_trans; [apply Nat.le_max_r | exact A].
+Qed.
+
+Lemma build_fuel_ok (m : kvs) k v : In (k, v) m -> length k < build_fuel m.
+Proof.
+  intros Hin. unfold build_fuel. destruct (fold_max_ge m 0) as [_ B]. specialize (B (k, v) Hin). cbn in B. lia.
+Qed.
+
+(** any canonical trie equals [build] of the list of its entries (up to hash caches) *)
+Theorem build_canonical n (m : kvs) :
+  canon n -> NoDup (map fst m) -> (forall k w, has n k w <-> In (k, w) m) ->
+  erase n = erase (build (build_fuel m) m).
+Proof.
+  intros Hc Hn Hh.
+  assert (Hw : keys_wf m) by (intros k v Hin; apply Hh in Hin; eapply canon_has_wfk; eauto).
+  assert (Hv : vals_ne m) by (intros k v Hin; apply Hh in Hin; eapply canon_has_wfk; eauto).
+  destruct (build_spec (build_fuel m) m Hn Hv Hw) as (A & _ & _ & D).
+  { intros k v Hin. eapply build_fuel_ok; eauto. }
+  apply canon_unique; auto. intros k w. rewrite Hh, D. tauto.
 Qed.
